@@ -24,11 +24,12 @@ fn simple(g: &mut Gen) -> ActId {
 
 pub fn long(seed: u64) -> Program {
     let mut g = Gen::new(seed);
-    match g.rng.below(10) {
+    match g.rng.below(12) {
         0..=2 => deep_queue(g),
         3..=4 => deep_subscriber(g),
-        5..=6 => many_subscribers(g),
-        7 => many_panics(g),
+        5..=7 => many_subscribers(g),
+        8 => many_panics(g),
+        9 => many_effects(g),
         _ => plain(g),
     }
 }
@@ -147,7 +148,11 @@ fn many_subscribers(mut g: Gen) -> Program {
     let mut subs = vec![SubCfg { kind: SubKind::Direct, ..Default::default() }];
     let mut main = vec![Op::Build { store: 0 }, Op::AddSub { store: 0, sub: 0, reg: 0 }];
     let mut regs = 1usize;
-    let nsub = g.rng.range(8, 23) as usize;
+    let nsub = g.rng.pick(&[9usize, 10, 13, 17, 24, 40, 70, 80]);
+    let leave_pct = g.rng.pick(&[20u64, 30, 50, 60]);
+    // sometimes the oldest K subscribers leave, in registration order (dozens of removals, each
+    // leaving a hole at the front of whatever the store keeps them in)
+    let oldest_k = if nsub >= 40 && g.rng.chance(40) { Some(g.rng.pick(&[33usize, 36, 45]).min(nsub - 5)) } else { None };
     let mut leavers = vec![];
     for k in 0..nsub {
         let kind = match g.rng.below(10) {
@@ -155,7 +160,12 @@ fn many_subscribers(mut g: Gen) -> Program {
             7 => SubKind::Selector,
             _ => SubKind::Channeled { cap: 16, policy: Policy::Block },
         };
-        if kind == SubKind::Direct && k < nsub - 1 && g.rng.chance(30) {
+        let leaves = match oldest_k {
+            Some(kk) => k < kk,
+            None => kind == SubKind::Direct && k < nsub - 1 && g.rng.chance(leave_pct),
+        };
+        let kind = if oldest_k.is_some() && k < nsub - 1 { SubKind::Direct } else { kind };
+        if leaves {
             leavers.push(regs);
         }
         subs.push(SubCfg { kind, ..Default::default() });
@@ -165,7 +175,8 @@ fn many_subscribers(mut g: Gen) -> Program {
     // an iterator registered last, consumed by its own thread
     let mut threads: Vec<Vec<Op>> = vec![vec![]];
     main.push(Op::Iter { store: 0, it: 0 });
-    let n = g.rng.range(10, 40) as usize;
+    // enough actions for the producer to outlast the leavers
+    let n = g.rng.range(10, 40) as usize + nsub;
     let mut ops = vec![];
     for _ in 0..n {
         let a = simple(&mut g);
@@ -277,7 +288,8 @@ fn plain(mut g: Gen) -> Program {
     let cap = g.rng.pick(&[1usize, 2, 5, 16, 16, 64, 128]);
     let nred = g.rng.range(1, 2) as u32;
     let reds: Vec<u32> = (0..nred).collect();
-    let mws: Vec<u32> = if g.rng.chance(40) { vec![100] } else { vec![] };
+    let nmw = g.rng.pick(&[0u32, 0, 1, 1, 3, 9, 12]);
+    let mws: Vec<u32> = (100..100 + nmw).collect();
     let name = if g.rng.chance(50) { "store".to_string() } else { "lg".to_string() };
     let builder = g.canonical_builder(&name, cap, policy, &reds, &mws);
     let stores = vec![StoreCfg { builder, droppable: g.rng.chance(20), stepper: None, ctor: 0 }];
@@ -309,10 +321,11 @@ fn plain(mut g: Gen) -> Program {
         let mut ops = Vec::with_capacity(n);
         for _ in 0..n {
             let a = g.plain_act(&reds, 8);
-            if !mws.is_empty() && g.rng.chance(10) {
+            if !mws.is_empty() && g.rng.chance(15) {
                 let mut m = MwScript::default();
-                m.verdict[g.rng.below(3) as usize] = g.rng.pick(&[Verdict::Done, Verdict::Break, Verdict::Continue]);
-                g.acts.get_mut(&a).unwrap().mw.insert(100, m);
+                m.verdict[g.rng.below(3) as usize] = g.rng.pick(&[Verdict::Done, Verdict::Break, Verdict::Break, Verdict::Continue]);
+                let which = mws[g.rng.below(mws.len() as u64) as usize];
+                g.acts.get_mut(&a).unwrap().mw.insert(which, m);
             }
             if g.rng.chance(3) {
                 let id = g.new_eff();
@@ -329,6 +342,11 @@ fn plain(mut g: Gen) -> Program {
             }
         }
         threads.push(ops);
+    }
+    // a reader that polls state and metrics while the producers run
+    if g.rng.chance(40) {
+        let k = g.rng.pick(&[20usize, 100, 300]);
+        threads.push((0..k).map(|_| if g.rng.chance(60) { Op::GetMetrics { store: 0 } } else { Op::GetState { store: 0 } }).collect());
     }
     let cycles = g.rng.pick(&[0usize, 5, 20, 20, 70, 300]);
     if cycles > 0 {
@@ -383,4 +401,62 @@ fn plain(mut g: Gen) -> Program {
     }
     threads[0] = main;
     g.finish("long", stores, subs, regs, iters, 0, threads, knobs, false)
+}
+
+/// dozens of effect jobs outstanding at once (parked on a gate), follow-up actions behind them, and
+/// the store stopped or dropped while they are still outstanding
+fn many_effects(mut g: Gen) -> Program {
+    let mut knobs = g.knobs(false);
+    knobs.step_limit = 1_000_000;
+    let reds = vec![0u32];
+    let cap = g.rng.pick(&[16usize, 64, 128]);
+    let builder = g.canonical_builder("me", cap, Policy::Block, &reds, &[]);
+    let droppable = g.rng.chance(50);
+    let stores = vec![StoreCfg { builder, droppable, stepper: None, ctor: 0 }];
+    let subs = vec![SubCfg { kind: SubKind::Direct, ..Default::default() }];
+    let mut main = vec![Op::Build { store: 0 }, Op::AddSub { store: 0, sub: 0, reg: 0 }];
+    let n = g.rng.pick(&[20usize, 63, 64, 65, 70, 130]);
+    for _ in 0..n {
+        let a = simple(&mut g);
+        let id = g.new_eff();
+        let kind = if g.rng.chance(50) { EffKind::Task } else { EffKind::Function };
+        g.acts.get_mut(&a).unwrap().red.entry(0).or_default().eff = Some(EffSpec { id, kind, panic: false, gate: Some(0), sleep_ms: 0 });
+        main.push(Op::Dispatch { store: 0, act: a, via: Via::Impl });
+    }
+    main.push(Op::Settle);
+    main.push(Op::Snap { tag: 0 });
+    // behind them: actions whose reducers ask for follow-ups, tasks and plain ones
+    let m = g.rng.range(2, 12) as usize;
+    for _ in 0..m {
+        let a = simple(&mut g);
+        match g.rng.below(3) {
+            0 => {
+                let id = g.new_eff();
+                let f = simple(&mut g);
+                g.acts.get_mut(&a).unwrap().red.entry(0).or_default().eff = Some(EffSpec { id, kind: EffKind::Action(f), panic: false, gate: None, sleep_ms: 0 });
+            }
+            1 => {
+                let id = g.new_eff();
+                g.acts.get_mut(&a).unwrap().red.entry(0).or_default().eff = Some(EffSpec { id, kind: EffKind::Task, panic: false, gate: None, sleep_ms: 0 });
+            }
+            _ => {}
+        }
+        let via = g.via();
+        main.push(Op::Dispatch { store: 0, act: a, via });
+    }
+    let mut threads: Vec<Vec<Op>> = vec![vec![]];
+    threads.push(vec![if droppable { Op::DropStore { store: 0 } } else { Op::Stop { store: 0 } }, Op::GetState { store: 0 }]);
+    if g.rng.chance(50) {
+        main.push(Op::Settle);
+    }
+    main.push(Op::Start { thread: 1 });
+    main.push(Op::Settle);
+    main.push(Op::Open { gate: 0, n: 1_000_000 });
+    main.push(Op::Join { thread: 1 });
+    main.push(Op::Stop { store: 0 });
+    main.push(Op::GetState { store: 0 });
+    main.push(Op::GetMetrics { store: 0 });
+    main.push(Op::Unsub { reg: 0 });
+    threads[0] = main;
+    g.finish("long", stores, subs, 1, 0, 1, threads, knobs, false)
 }
